@@ -319,7 +319,7 @@ func TestEchoBroadcast(t *testing.T) {
 				runners[id] = &exchangeRunner{cid: cid, ns: "session-7", quorum: quorum, msg: bmsg{Data: sent[id]}}
 			}
 		}
-		opt := netsim.Options{Idle: 30 * time.Second, Hard: 5 * time.Minute}
+		opt := netsim.Options{Idle: hardBound(30*time.Second, 5*time.Second), Hard: hardBound(90*time.Second, 10*time.Second)}
 		if eq != nil {
 			// a party that aborts early (conflicting retransmission) leaves the others waiting for its
 			// echo: they are cancelled once the network is idle and give no verdict
@@ -328,7 +328,8 @@ func TestEchoBroadcast(t *testing.T) {
 		res, oc := netsim.RunAll(net, runners, opt)
 		what := fmt.Sprintf("n=%d ids=%v api=%s cid=%q shuffle=%v dupPct=%d scheduleSeed=%d equivocation=%+v", n, ids, api, cid, shuffle, dupPct, seed, eq)
 		if oc.HardStop {
-			t.Fatalf("echo broadcast did not terminate (%s)", what)
+			hangSeen.Store(true)
+			t.Fatalf("echo broadcast did not terminate within %v (%s)", opt.Hard, what)
 		}
 		returned := 0
 		for _, id := range ids {
